@@ -155,6 +155,11 @@ func RunLife(sc LifeScenario) (evs []Ev, inconclusive string) {
 	pc.OverflowConfig.BlockTimeout = 0
 	pc.WorkerConfig.SinkPoolSize = 2
 	pc.WorkerConfig.SinkWorkerCount = 2
+	if sc.Directed == "stopgrace" && sc.Strategy == "block" {
+		// back-pressure at the moment of Stop: the window's output queue holds one batch, the consumer is stuck in its sink, the
+		// window goroutine waits for room (no timeout) - Stop still returns within its grace period
+		pc.BufferConfig.WindowOutputSize = 1
+	}
 	if sc.Directed == "slowdrain" || sc.Directed == "stoptwice" { // a deep queue of tasks for one slow asynchronous sink worker
 		pc.WorkerConfig.SinkPoolSize = 2048
 		pc.WorkerConfig.SinkWorkerCount = 1
@@ -348,8 +353,15 @@ func RunLife(sc LifeScenario) (evs []Ev, inconclusive string) {
 		time.Sleep(30 * time.Millisecond)
 	case "stopgrace":
 		// a synchronous sink blocks (a stuck downstream): Stop must still return within its grace period
-		for i := 1; i <= 6; i++ {
+		nrows := 6
+		if sc.Strategy == "block" {
+			nrows = 9 // at least three batches: one in the sink, one in the window's output queue, one waiting for room
+		}
+		for i := 1; i <= nrows; i++ {
 			guard("Emit", func() { s.Emit(row(i)) })
+		}
+		if sc.Strategy == "block" {
+			time.Sleep(100 * time.Millisecond) // the window goroutine has worked the rows off and waits in its send
 		}
 		select {
 		case <-entered:
